@@ -42,7 +42,7 @@ fn gen_lhs(sig: &LangSig, src: &mut Src, depth: usize, next_bound: &mut Name, sc
     if !root && (depth >= 3 || src.pick(3) == 0) {
         return pvar(vars[src.pick(vars.len())]);
     }
-    let ops: Vec<&OpSig> = sig.ops.iter().filter(|o| !["g4", "g5", "g6"].contains(&o.name)).collect();
+    let ops: Vec<&OpSig> = sig.ops.iter().filter(|o| !["g4", "g5", "g6", "h3", "h4"].contains(&o.name)).collect();
     let inner: Vec<&OpSig> = ops.iter().copied().filter(|o| !o.is_leaf()).collect();
     let o = if root || src.pick(4) != 0 { inner[src.pick(inner.len())] } else { ops[src.pick(ops.len())] };
     let mut args = Vec::new();
@@ -115,7 +115,7 @@ fn gen_rhs(lang: LangId, sig: &LangSig, src: &mut Src, depth: usize, scopes: &BT
         }
     }
     // a node without binders whose children are right patterns; slots from the free slots of the left side
-    let ops: Vec<&OpSig> = sig.ops.iter().filter(|o| !o.fields.iter().any(|f| matches!(f, Field::Kid(n) if *n > 0)) && !["g4", "g5", "g6"].contains(&o.name)).collect();
+    let ops: Vec<&OpSig> = sig.ops.iter().filter(|o| !o.fields.iter().any(|f| matches!(f, Field::Kid(n) if *n > 0)) && !["g4", "g5", "g6", "h3", "h4"].contains(&o.name)).collect();
     let usable: Vec<&OpSig> = ops.into_iter().filter(|o| !o.fields.iter().any(|f| matches!(f, Field::Slot)) || !free.is_empty()).collect();
     let o = usable[src.pick(usable.len())];
     let mut args = Vec::new();
